@@ -29,4 +29,10 @@ func init() {
 		Rule: "a run is non-trivial iff (a) a proposal with missing transactions was accepted (and requested) inside an OnTransaction call, i.e. while completing an earlier proposal (counted separately as oracle_notes.obligation_opened_inside_OnTransaction), or (b) the last supplied transaction completed a block that failed verification and was answered by a change-view request, or (c) a requested transaction was supplied after a timeout or another consensus payload had had an effect on the node; distinct = distinct ordered delivery sequences"})
 	register(&PropSpec{ID: "C13", Run: simpleRun(WatchScenario, func(s *Sim) { s.AddOracle(NewOracleC13(s)) }),
 		Rule: "a run is non-trivial iff a validator with the watch-only flag set was the primary of its current height and view at least once; distinct = distinct ordered delivery sequences"})
+	register(&PropSpec{ID: "C08", Run: simpleRun(SyncScenario, func(s *Sim) { s.AddOracle(NewOracleC08(s)); s.AddOracle(NewOracleC01(s)) }),
+		Rule: "a run is non-trivial iff some payload reached a node before it had entered the height or view it belongs to (it was cached) in a run whose delivery order is tape-permuted; distinct = distinct ordered delivery sequences"})
+	register(&PropSpec{ID: "C09", Run: simpleRun(GSTScenario, func(s *Sim) { s.AddOracle(NewOracleC09(s)); s.AddOracle(NewOracleC01(s)) }),
+		Rule: "a run is non-trivial iff validators were silent from the start, or a partition healed, or a validator restarted, before the network became synchronous; distinct = distinct ordered delivery sequences"})
+	register(&PropSpec{ID: "C15", Run: simpleRun(ClockScenario, func(s *Sim) { s.AddOracle(NewOracleC15(s)) }),
+		Rule: "a run is non-trivial iff some proposal was made while the proposer's clock was not ahead of the previous block's timestamp (skew or backward step); distinct = distinct ordered delivery sequences"})
 }
